@@ -556,9 +556,12 @@ func (d *cliDriver) oneCase(seed int64, id int) {
 		c := &cmd.GenerateCommand{Dest: dest, Perm: 0644, AggregationMethod: methodOf(cfg.Method), XFilesFactor: xffFloat(cfg.Xff),
 			ArchiveInfoList: archiveInfoList(cfg), RandMax: max, Fill: fill}
 		res := e.runCmd(c, &c.TextOut)
-		snap := snapshot(dest, cfg, gmp)
 		hdr := MCfg{Layout: []MArch{}, Method: "?", Xff: [2]int64{0, 1}}
 		buf, _ := ioutil.ReadFile(dest)
+		snap := sfile{}
+		if _, _, derr := decodeFile(buf); derr == nil || len(buf) == 0 {
+			snap = snapshot(dest, cfg, gmp)
+		} // else: what generate left is no Whisper file; the line says so through hdr = "?"
 		if h, _, err := decodeFile(buf); err == nil && headerMatches(h, cfg) == nil {
 			hdr = cfg
 		}
